@@ -10,7 +10,8 @@
 //! * `race <reps> <n> <seed>`  `reps` rounds of a tiny stream whose last merge is immediately followed by the drop.
 use crate::rng::Rng;
 use crate::{Ctx, Tier};
-use scylla::verif_hooks::merge_channel as hooks;
+pub(crate) use scylla::verif_hooks::merge_channel as hooks;
+use crate::c19_race::{run_race, run_stress};
 use std::future::Future;
 use std::pin::Pin;
 use std::sync::Arc;
@@ -248,7 +249,7 @@ pub fn generate(rng: &mut Rng, tier: Tier, emit: &mut dyn FnMut(String)) {
     {
         let mut push = |c: String| light.push(c);
         // exhaustive legal interleavings at poll granularity
-        exhaustive(if quick { 10 } else { 12 }, &mut push);
+        exhaustive(if quick { 10 } else { 13 }, &mut push);
         // random long runs
         for _ in 0..(if quick { 4_000 } else { 60_000 }) {
             let len = *rng.pick(&[12usize, 20, 40, 80, 200]);
@@ -604,124 +605,6 @@ fn run_slot(body: &str, ctx: &mut Ctx) -> String {
         }
     }
     out.join(";")
-}
-
-// ---------------------------------------------------------------------------------------------
-// stress
-// ---------------------------------------------------------------------------------------------
-
-/// One producer thread merging `0..n` (paced by `pace`) then dropping; the consumer receives on `rt` until `None`.
-/// Returns the number of updates received in order (== n when nothing is wrong).
-fn stress_round(rt: &tokio::runtime::Runtime, n: u64, mode: u64, seed: u64, pace: bool, ctx: &mut Ctx) -> Option<u64> {
-    let (mut tx, mut rx) = hooks::channel();
-    let producer = std::thread::spawn(move || {
-        let mut rng = Rng::new(seed);
-        for x in 0..n {
-            if tx.merge(x).is_err() {
-                return Err(x);
-            }
-            if !pace {
-                continue;
-            }
-            // vary the producer's pace so that the consumer is sometimes parked, sometimes running
-            match rng.below(64) {
-                0 => std::thread::yield_now(),
-                1 => std::thread::sleep(std::time::Duration::from_micros(rng.below(60))),
-                2..=5 => {
-                    for _ in 0..rng.below(200) {
-                        std::hint::spin_loop();
-                    }
-                }
-                _ => {}
-            }
-        }
-        drop(tx);
-        Ok(())
-    });
-    let consumer = async {
-        let mut next = 0u64; // the next update expected
-        let mut problems: Vec<String> = Vec::new();
-        loop {
-            let got = if mode == 1 {
-                // `recv` races with an always-ready branch: it is cancelled and restarted over and over
-                tokio::select! {
-                    biased;
-                    v = rx.recv() => v,
-                    _ = tokio::task::yield_now() => continue,
-                }
-            } else if mode == 2 {
-                tokio::select! {
-                    v = rx.recv() => v,
-                    _ = tokio::time::sleep(std::time::Duration::from_micros(30)) => continue,
-                }
-            } else {
-                rx.recv().await
-            };
-            match got {
-                Some(v) => {
-                    if v.is_empty() {
-                        problems.push("empty value received".into());
-                    }
-                    for x in v {
-                        if x != next && problems.len() < 3 {
-                            problems.push(format!("expected update {} next, received {} (lost / duplicated / reordered)", next, x));
-                        }
-                        next = x + 1;
-                    }
-                }
-                None => break,
-            }
-        }
-        (next, problems)
-    };
-    let limit = std::time::Duration::from_secs(if pace { 20 } else { 5 } + n / 20_000);
-    let res = rt.block_on(async { tokio::time::timeout(limit, consumer).await });
-    match res {
-        Err(_) => {
-            ctx.fail(format!("consumer did not finish within {} s: lost wake-up (hang)", limit.as_secs()));
-            None
-        }
-        Ok((next, problems)) => {
-            for p in problems {
-                ctx.fail(p);
-            }
-            match producer.join() {
-                Ok(Ok(())) => {}
-                Ok(Err(x)) => ctx.fail(format!("modify({}) returned SendError while the receiver is alive", x)),
-                Err(_) => ctx.fail("producer panicked"),
-            }
-            if next != n {
-                ctx.fail(format!("None received after updates 0..{}, but 0..{} were merged before the drop", next, n));
-            }
-            Some(next)
-        }
-    }
-}
-
-fn run_stress(n: u64, mode: u64, seed: u64, ctx: &mut Ctx) -> String {
-    let rt = tokio::runtime::Builder::new_current_thread().enable_time().build().unwrap();
-    match stress_round(&rt, n, mode, seed, true, ctx) {
-        None => "hang".into(),
-        Some(next) => format!("received=0..{} in-order none-last", next),
-    }
-}
-
-/// `reps` rounds of a tiny stream (`n` merges, then the drop at once): exercises the window between the consumer's
-/// first `take()` and its load of `sender_dropped` (merge_channel.rs:162-170) `reps` times.
-fn run_race(reps: u64, n: u64, seed: u64, ctx: &mut Ctx) -> String {
-    let rt = tokio::runtime::Builder::new_current_thread().enable_time().build().unwrap();
-    let mut good = 0;
-    for r in 0..reps {
-        match stress_round(&rt, n, r % 2, seed.wrapping_add(r), false, ctx) {
-            None => return "hang".into(),
-            Some(next) if next == n => good += 1,
-            Some(_) => {}
-        }
-        if ctx.oracle_failures.len() > 5 {
-            break;
-        }
-    }
-    format!("rounds={} each=0..{} in-order none-last", good, n)
 }
 
 pub fn run(case: &str, ctx: &mut Ctx) -> String {
